@@ -241,8 +241,51 @@ func c18(c *Ctx) {
 					}
 					return false
 				}
-				hasReq := flow.Default.Any(st.Val, isReq) || viaDeepCopy(isReq)
-				hasExtra := flow.Default.Any(st.Val, isExtra) || viaDeepCopy(isExtra)
+				// … or appended one by one as `*x[i].DeepCopy()`
+				viaAppendedCopy := func(pred func(ssa.Value) bool) bool {
+					for _, ap := range calls(ren, "builtin.append") {
+						if !flow.Default.Any(st.Val, func(v ssa.Value) bool { return v == ap.Value() }) {
+							continue
+						}
+						a := ap.Common().Args
+						if len(a) != 2 {
+							continue
+						}
+						sl, ok := a[1].(*ssa.Slice)
+						if !ok {
+							continue
+						}
+						arr, ok := sl.X.(*ssa.Alloc)
+						if !ok || arr.Referrers() == nil {
+							continue
+						}
+						for _, r := range *arr.Referrers() {
+							ia, ok := r.(*ssa.IndexAddr)
+							if !ok || ia.Referrers() == nil {
+								continue
+							}
+							for _, u := range *ia.Referrers() {
+								es, ok := u.(*ssa.Store)
+								if !ok {
+									continue
+								}
+								if flow.Default.Any(es.Val, func(v ssa.Value) bool {
+									ci, ok := v.(*ssa.Call)
+									if !ok || !strings.HasSuffix(cfgx.CalleeName(ci), ".DeepCopy") {
+										return false
+									}
+									rc := cfgx.Receiver(ci)
+									return rc != nil && flow.Default.Any(rc, pred)
+								}) {
+									return true
+								}
+							}
+						}
+					}
+					return false
+				}
+				hasReq := flow.Default.Any(st.Val, isReq) || viaDeepCopy(isReq) || viaAppendedCopy(isReq)
+				hasExtra := flow.Default.Any(st.Val, isExtra) || viaDeepCopy(isExtra) || viaAppendedCopy(isExtra)
 				if isSystem {
 					c.R.Check(hasReq && hasExtra, load.FuncName(ren)+": system role rules", c.pos(st.Pos()), "system role = CRD rules + finalizers + baseline + permission requests", "the system role's rules lost the baseline or the permission requests")
 				} else {
